@@ -34,6 +34,7 @@ type vhStore struct {
 	interfered    int
 	interfereMax  int // 0 = unbounded
 	commitUpdates bool
+	onInterfere   func(d *vhDoc) // what the other node changes (besides the CAS) when it interferes
 }
 
 func vhNewStore(faults, interfere bool) *vhStore {
@@ -73,6 +74,9 @@ func (s *vhStore) otherNode(k string) {
 	if vNondetBool() {
 		s.interfered++
 		d.cas = s.nextCas()
+		if s.onInterfere != nil {
+			s.onInterfere(d)
+		}
 		if r, ok := d.v.(*roleImpl); ok && vNondetBool() {
 			c := *r
 			c.Deleted = true
